@@ -320,3 +320,29 @@ def replay_class_matrix_while_waiting_change(prop, v):
 
 
 REPLAYS["Node.accept"] = replay_accept_dispatch
+
+
+def replay_preempt_overtime_server(prop, v):
+    """whole-run witness (E4): non-pre-emptive schedule [1 server until t=5, 1 server until t=100], priorities with 'resume':
+    a low-priority customer works its server into overtime, a high-priority customer takes the new server, a second
+    high-priority customer pre-empts the low-priority one on the off-duty server"""
+    ciw = _ciw()
+    N = ciw.create_network(
+        arrival_distributions={'Lo': [ciw.dists.Sequential([1.0, float('inf')])], 'Hi': [ciw.dists.Sequential([6.0, 1.0, float('inf')])]},
+        service_distributions={'Lo': [ciw.dists.Deterministic(10.0)], 'Hi': [ciw.dists.Deterministic(3.0)]},
+        number_of_servers=[ciw.Schedule(numbers_of_servers=[1, 1], shift_end_dates=[5, 100])],
+        priority_classes=({'Hi': 0, 'Lo': 1}, ['resume']))
+    Q = ciw.Simulation(N)
+    Q.simulate_until_max_time(50)
+    nd = Q.transitive_nodes[0]
+    stuck = [i for i in nd.all_individuals if i.server and i.server not in nd.servers]
+    if stuck:
+        i = stuck[0]
+        return dict(confirmed=True, kind="whole-run",
+                    transcript=f"customer {i.id_number} ({i.customer_class}) pre-empted a customer whose server was off duty: it 'started service' at "
+                               f"t={i.service_start_date} (due to end at {i.service_end_date}) on server {i.server.id_number}, which was deleted at that "
+                               f"instant and is not one of the node's servers; at t=50 the customer is still there and never finishes")
+    return dict(confirmed=False, kind="whole-run", transcript="no customer left on a deleted server")
+
+
+REPLAYS["Node.decide_preempt"] = replay_preempt_overtime_server
